@@ -108,27 +108,19 @@ static struct timeval *ares_timeout_int(const ares_channel_t *channel,
 
   ares_timeval_remaining(&atvbuf, &now, &query->timeout);
 
+  /* Return the minimum time between maxtv and the remaining time.  maxtv and
+   * tvbuf may be the same object (documented as valid), so look at maxtv
+   * before anything is stored in tvbuf. */
+  if (maxtv != NULL) {
+    struct_timeval_to_ares_timeval(&amaxtv, maxtv);
+
+    if (atvbuf.sec > amaxtv.sec ||
+        (atvbuf.sec == amaxtv.sec && atvbuf.usec > amaxtv.usec)) {
+      return maxtv;
+    }
+  }
+
   ares_timeval_to_struct_timeval(tvbuf, &atvbuf);
-
-  if (maxtv == NULL) {
-    return tvbuf;
-  }
-
-  /* Return the minimum time between maxtv and tvbuf */
-  struct_timeval_to_ares_timeval(&amaxtv, maxtv);
-
-  if (atvbuf.sec > amaxtv.sec) {
-    return maxtv;
-  }
-
-  if (atvbuf.sec < amaxtv.sec) {
-    return tvbuf;
-  }
-
-  if (atvbuf.usec > amaxtv.usec) {
-    return maxtv;
-  }
-
   return tvbuf;
 }
 
